@@ -3,6 +3,10 @@
 import json, subprocess
 
 CHECKS = {
+ "C08": ("exploration",
+         "Lock -> (store through sink schedules -> parse through source schedules) -> unlock cycles over real secret key packets of all pool algorithms, both key versions, CFB and AEAD (3 modes) protection, 9 ciphers, simple/salted/iterated/Argon2 specifiers, password classes incl. empty, non-UTF-8 and 200-byte, RNG-seam IV/nonce/salt with biased octets; wrong passwords; bit flips over S2K parameters, IV/nonce, blob and (AEAD) public fields; usage-255 and legacy-cipher-octet keys produced by a legacy-peer stub. Oracle: right password restores byte-identical key material, anything else is Err.",
+         "5 (C08)", "legacy-peer stub uses cfb-mode/aes/md-5 crates and rpgp's own S2K derive_key; 16-bit checksum cases only asserted where they cannot collide",
+         "deterministic simulation (store round trip, RNG seam, channel bit flips, legacy-peer stub)"),
  "C16": ("exploration",
          "Mail-path simulation: texts from a grammar rich in dash-initial lines, blanks, CRs, multi-byte characters and armor boundary strings are signed through sign/new/new_many (1-2 signers), armored, passed through a channel that rewrites body lines (identity, LF<->CRLF, trailing blanks stripped/added, bit flip, byte insert/delete) and read back through from_string / from_armor / from_armor_buf under read schedules. One symmetric oracle judges every channel: verify succeeds iff the reference signed form of the received body equals that of the original text, and signed_text() always equals the reference signed form of the received body; text() round-trips on the identity channel.",
          "5 (C16)", "the 30-line reference model of the cleartext framework in the harness is the specification; the channel never touches the armor headers or the signature block",
